@@ -118,9 +118,9 @@ func genC17(verifSeed int64, tier string, idx int) *core.Scenario {
 		default:
 			f := builtinUniverse[r.Intn(3)]
 			var err error
-			b, err = renderWith(f, d, r.Intn(5))
+			b, err = gen.RenderSafe(f, d, r.Intn(5))
 			if err != nil {
-				panic("genC17: cannot render workload document: " + err.Error())
+				b = repoFile("bom-1.4.json") // the serializer refused a workload document: fixed input instead
 			}
 		}
 		sp.Streams = append(sp.Streams, b64(b))
